@@ -1548,6 +1548,8 @@ class Interp:
             sl_ = self.np.broadcast_last(l, r)
             if sl_:
                 out.tags = out.tags | {("shape-last", sl_[0], sl_[1])}
+        if isinstance(op, (ast.Add, ast.Sub)) and ("polar-angle" in l.tags or "polar-angle" in r.tags) and out.kind in ("arr", "unknown", "float"):
+            out.tags = out.tags | {"polar-angle"}
         rl = {t for t in l.tags if isinstance(t, tuple) and t[0] == "rows-of"}
         rr = {t for t in r.tags if isinstance(t, tuple) and t[0] == "rows-of"}
         ol_, or__ = order_of(l), order_of(r)
